@@ -333,6 +333,13 @@ def readWith (cfg : Config) (bs : Bytes) : Except Reason Table := do
   if (fm.rowGroups.map (·.numRows)).sum ≠ fm.numRows then throw .fileRowCountMismatch
   pure ⟨root, rgs⟩
 
+/-- the metadata stages of the reader alone: envelope, footer (with every REQUIRED-field, field-type and
+union rule of parquet.thrift, the LogicalType of every schema element included), schema tree -/
+def readSchema (bs : Bytes) : Except Reason Schema.Node := do
+  let (_, footer) ← splitFile bs
+  let fm ← parseFooter footer
+  schemaOf fm.schema
+
 /-- **The independent reader.**  `strictTiling`: the chunks must tile the data region exactly
 (C05); `oracle`: decompressed GZIP / ZSTD page bodies. -/
 def read (bs : Bytes) (strictTiling : Bool := false) (oracle : Oracle := []) : Except Reason Table :=
